@@ -10,6 +10,52 @@ use vh::*;
 #[path = "/repo/examples/fungible-vault/src/contract.rs"]
 mod vaultc;
 
+/// The same vault assembled directly from the LIBRARY functions (stellar_tokens::vault::Vault::*), bypassing the
+/// `FungibleVault` trait defaults of vault/mod.rs that the example contract goes through, and exposing the two
+/// library setters.  Traces are run against either contract and compared with the same model, so every trait
+/// entry point of the example is compared with the library-level answer.
+mod libvault {
+    use soroban_sdk::{contract, contractimpl, Address, Env, MuxedAddress, String};
+    use stellar_tokens::{fungible::{Base, FungibleToken}, vault::Vault};
+
+    #[contract]
+    pub struct LibVault;
+
+    #[contractimpl]
+    impl LibVault {
+        pub fn __constructor(e: &Env, name: String, symbol: String, asset: Address, decimals_offset: u32) {
+            Vault::set_asset(e, asset);
+            Vault::set_decimals_offset(e, decimals_offset);
+            Base::set_metadata(e, Vault::decimals(e), name, symbol);
+        }
+        pub fn query_asset(e: &Env) -> Address { Vault::query_asset(e) }
+        pub fn total_assets(e: &Env) -> i128 { Vault::total_assets(e) }
+        pub fn convert_to_shares(e: &Env, assets: i128) -> i128 { Vault::convert_to_shares(e, assets) }
+        pub fn convert_to_assets(e: &Env, shares: i128) -> i128 { Vault::convert_to_assets(e, shares) }
+        pub fn max_deposit(e: &Env, receiver: Address) -> i128 { Vault::max_deposit(e, receiver) }
+        pub fn preview_deposit(e: &Env, assets: i128) -> i128 { Vault::preview_deposit(e, assets) }
+        pub fn deposit(e: &Env, assets: i128, receiver: Address, from: Address, operator: Address) -> i128 { Vault::deposit(e, assets, receiver, from, operator) }
+        pub fn max_mint(e: &Env, receiver: Address) -> i128 { Vault::max_mint(e, receiver) }
+        pub fn preview_mint(e: &Env, shares: i128) -> i128 { Vault::preview_mint(e, shares) }
+        pub fn mint(e: &Env, shares: i128, receiver: Address, from: Address, operator: Address) -> i128 { Vault::mint(e, shares, receiver, from, operator) }
+        pub fn max_withdraw(e: &Env, owner: Address) -> i128 { Vault::max_withdraw(e, owner) }
+        pub fn preview_withdraw(e: &Env, assets: i128) -> i128 { Vault::preview_withdraw(e, assets) }
+        pub fn withdraw(e: &Env, assets: i128, receiver: Address, owner: Address, operator: Address) -> i128 { Vault::withdraw(e, assets, receiver, owner, operator) }
+        pub fn max_redeem(e: &Env, owner: Address) -> i128 { Vault::max_redeem(e, owner) }
+        pub fn preview_redeem(e: &Env, shares: i128) -> i128 { Vault::preview_redeem(e, shares) }
+        pub fn redeem(e: &Env, shares: i128, receiver: Address, owner: Address, operator: Address) -> i128 { Vault::redeem(e, shares, receiver, owner, operator) }
+        /// the library setters (no authorisation in the library)
+        pub fn lib_set_asset(e: &Env, a: Address) { Vault::set_asset(e, a) }
+        pub fn lib_set_decimals_offset(e: &Env, off: u32) { Vault::set_decimals_offset(e, off) }
+    }
+
+    #[contractimpl(contracttrait)]
+    impl FungibleToken for LibVault {
+        type ContractType = Vault;
+        fn decimals(e: &Env) -> u32 { Vault::decimals(e) }
+    }
+}
+
 mod asset {
     use soroban_sdk::{contract, contractimpl, Address, Env, MuxedAddress, String};
     use stellar_tokens::fungible::{Base, FungibleToken};
@@ -58,6 +104,10 @@ enum Call {
     SApprove(usize, usize, i128, u32, Au),
     Advance(u32),
     Query(Q),
+    /// library Vault::set_asset(addr) run inside the vault (index 255 = the asset token itself)
+    SetAsset(usize),
+    /// library Vault::set_decimals_offset(off) run inside the vault
+    SetOffset(u32),
 }
 
 fn au_coq(au: &Au) -> String {
@@ -80,6 +130,8 @@ impl Call {
             Call::STransferFrom(s, f, t, a, au) => format!("STransferFrom {} {} {} {} {}", nn(*s), nn(*f), nn(*t), z(*a), au_coq(au)),
             Call::SApprove(o, s, a, l, au) => format!("SApprove {} {} {} {} {}", nn(*o), nn(*s), z(*a), l, au_coq(au)),
             Call::Advance(k) => format!("Advance {}", k),
+            Call::SetAsset(i) => format!("SetAsset {}", nn(*i)),
+            Call::SetOffset(o) => format!("SetOffset {}", o),
             Call::Query(q) => format!("Query ({})", match q {
                 Q::ConvShares(a) => format!("QConvShares {}", z(*a)),
                 Q::ConvAssets(a) => format!("QConvAssets {}", z(*a)),
@@ -101,6 +153,7 @@ impl Call {
             Call::AMint(t, _) => if *t == 0 { "yield" } else { "fund" },
             Call::AApprove(..) => "asset_approve", Call::STransfer(..) => "share_transfer", Call::STransferFrom(..) => "share_transfer_from",
             Call::SApprove(..) => "share_approve", Call::Advance(..) => "advance",
+            Call::SetAsset(..) => "set_asset", Call::SetOffset(..) => "set_decimals_offset",
             Call::Query(q) => match q {
                 Q::ConvShares(_) => "convert_to_shares", Q::ConvAssets(_) => "convert_to_assets", Q::PrevDeposit(_) => "preview_deposit",
                 Q::PrevMint(_) => "preview_mint", Q::PrevWithdraw(_) => "preview_withdraw", Q::PrevRedeem(_) => "preview_redeem",
@@ -125,13 +178,15 @@ struct Inv { contract: Address, f: &'static str, args: SVec<Val>, subs: Vec<Inv>
 
 struct World {
     e: Env, vault: Address, asset: Address, a: Vec<Address>, sc: Vec<xdr::ScAddress>, n: usize,
-    now: u32, now0: u32, off: u32, adec: u32, max_ttl: u32, obs: Obs, obs0: Obs, dec: u32,
+    now: u32, now0: u32, off: u32, adec: u32, max_ttl: u32, obs: Obs, obs0: Obs, dec: u32, lib: bool,
 }
 
 fn rz(o: Option<i128>) -> String { match o { Some(v) => format!("(Ok {})", z(v)), None => "Fail".into() } }
 
 /// host configuration of the next World: min_temp_entry_ttl (1 as C07 prescribes, or 16 = the network default)
 static MIN_TEMP: std::sync::atomic::AtomicU32 = std::sync::atomic::AtomicU32::new(1);
+/// contract kind of the next World: false = the example contract (trait defaults), true = LibVault (library functions)
+static LIB_KIND: std::sync::atomic::AtomicBool = std::sync::atomic::AtomicBool::new(false);
 static QUIET: std::sync::atomic::AtomicBool = std::sync::atomic::AtomicBool::new(false);
 const MAX_OFF: u32 = stellar_tokens::vault::MAX_DECIMALS_OFFSET;
 
@@ -154,14 +209,15 @@ impl World {
         let name = SString::from_str(&e, "Vault"); let sym = SString::from_str(&e, "VLT");
         let e2 = e.clone(); let asset2 = asset.clone();
         QUIET.store(true, std::sync::atomic::Ordering::SeqCst);
-        let reg = std::panic::catch_unwind(std::panic::AssertUnwindSafe(move || e2.register(vaultc::ExampleContract, (name, sym, asset2, off))));
+        let lib_kind = LIB_KIND.load(std::sync::atomic::Ordering::SeqCst);
+        let reg = std::panic::catch_unwind(std::panic::AssertUnwindSafe(move || if lib_kind { e2.register(libvault::LibVault, (name, sym, asset2, off)) } else { e2.register(vaultc::ExampleContract, (name, sym, asset2, off)) }));
         QUIET.store(false, std::sync::atomic::Ordering::SeqCst);
         let empty = Obs { ab: vec![0; nuni], sb: vec![0; nuni], sup: 0, ta: 0, aal: vec![0; nuni * nuni], sal: vec![0; nuni * nuni], dec: 0, asset: 1 };
         let vault = match reg { Ok(v) => v, Err(_) => return Err(header_coq(off, adec, max_ttl, nuni, now0, None, &empty)) };
         let mut a = vec![vault.clone()];
         for _ in 1..nuni { a.push(Address::generate(&e)); }
         let sc = a.iter().map(|x| xdr::ScAddress::from(x)).collect();
-        let mut w = World { e, vault, asset, a, sc, n: nuni, now: now0, now0, off, adec, max_ttl, obs: empty.clone(), obs0: empty, dec: 0 };
+        let mut w = World { e, vault, asset, a, sc, n: nuni, now: now0, now0, off, adec, max_ttl, obs: empty.clone(), obs0: empty, dec: 0, lib: lib_kind };
         w.dec = w.get::<u32>(&w.vault, "decimals", SVec::new(&w.e)).unwrap_or(u32::MAX);
         w.obs = w.observe(); w.obs0 = w.obs.clone();
         Ok(w)
@@ -326,6 +382,15 @@ impl World {
                 let out = match r { Some(x) => format!("(Ok ({}, []))", z(x)), None => "Fail".into() };
                 (none, out, r.is_some(), r)
             }
+            Call::SetAsset(i) => {
+                let a = if *i == 255 { at.clone() } else { self.a[*i].clone() };
+                let (out, ok) = unit_out(self.invoke(&v, "lib_set_asset", soroban_sdk::vec![&e, a.to_val()], &[]));
+                (none, out, ok, None)
+            }
+            Call::SetOffset(o) => {
+                let (out, ok) = unit_out(self.invoke(&v, "lib_set_decimals_offset", soroban_sdk::vec![&e, (*o).into_val(&e)], &[]));
+                (none, out, ok, None)
+            }
         }
     }
 }
@@ -394,6 +459,8 @@ impl<'a> Run<'a> {
         (ok, ret)
     }
     fn finish(self, desc: &str) {
+        let desc = &format!("{}{}", if self.w.lib { "lib:" } else { "" }, desc);
+        self.out.label(if self.w.lib { "kind/library-functions" } else { "kind/example-contract" });
         let nn_ = self.items.len();
         let term = format!("(({}, {}) : trace)", self.w.header(), list(&self.items));
         self.out.trace(desc, term, nn_.max(1));
@@ -422,6 +489,8 @@ fn scenarios(out: &mut Out) {
         r.go(Call::Deposit(1000, 1, 1, 1, full(1)));
         r.go(Call::Query(Q::MaxWithdraw(1)));
         r.go(Call::Query(Q::MaxRedeem(1)));
+        // the configuration is set once: every later library setter call must fail
+        if r.w.lib { r.go(Call::SetAsset(255)); r.go(Call::SetAsset(2)); r.go(Call::SetOffset(off)); r.go(Call::SetOffset(0)); r.go(Call::SetOffset(MAX_OFF + 1)); }
         let s = r.w.obs.sb[1];
         r.go(Call::Redeem(s, 1, 1, 1, full(1)));
         r.go(Call::AMint(2, 77));
@@ -574,10 +643,12 @@ fn long_gaps(out: &mut Out, thorough: bool) {
     let gaps: [u32; 6] = [20, 100, 17_281, 20_000, 600_000, 4_000_000];
     let mut cfgs: Vec<(u32, u32, u32)> = vec![(1, 6_312_000, 0), (16, 6_312_000, 10), (16, 1_100_000, 3), (1, 1_100_000, 6)];
     if thorough { cfgs.extend_from_slice(&[(1, 6_312_000, 10), (16, 6_312_000, 0), (1, 3_110_400, 1), (16, 3_110_400, 5), (16, 600_000, 2)]); }
-    for (min_temp, max_ttl, off) in cfgs {
+    for (ci, (min_temp, max_ttl, off)) in cfgs.into_iter().enumerate() {
+        LIB_KIND.store(ci % 2 == 1, std::sync::atomic::Ordering::SeqCst);
         MIN_TEMP.store(min_temp, std::sync::atomic::Ordering::SeqCst);
         let w = mk(out, off, 7, max_ttl, 100);
         MIN_TEMP.store(1, std::sync::atomic::Ordering::SeqCst);
+        LIB_KIND.store(false, std::sync::atomic::Ordering::SeqCst);
         let Some(w) = w else { continue };
         let mut r = Run { w, items: vec![], out };
         let p = pow10(off);
@@ -599,6 +670,7 @@ fn long_gaps(out: &mut Out, thorough: bool) {
             r.go(Call::Redeem(p + 1, 4, 3, 2, full(2)));                           // share allowance 3 -> 2 (live up to the third gap)
             r.go(Call::Deposit(3, 1, 2, 1, full(1)));                              // asset allowance 2 -> 1 (expired after the third gap)
             r.go(Call::STransferFrom(4, 1, 4, 1, full(4)));                        // share allowance 1 -> 4
+            if r.w.lib { r.go(Call::SetOffset((off + 1) % (MAX_OFF + 1))); r.go(Call::SetAsset(4)); }   // still "already set"
         }
         let s1 = r.w.obs.sb[1];
         r.go(Call::Redeem(s1, 1, 1, 1, full(1)));
@@ -699,8 +771,10 @@ fn random_trace(out: &mut Out, rng: &mut Rng, idx: usize, len: usize) {
     let adec = *rng.pick(&[0u32, 7, 18]);
     let min_temp = if rng.chance(1, 2) { 1 } else { 16 };
     MIN_TEMP.store(min_temp, std::sync::atomic::Ordering::SeqCst);
+    LIB_KIND.store(rng.chance(3, 10), std::sync::atomic::Ordering::SeqCst);
     let w = mk(out, off, adec, max_ttl, now0);
     MIN_TEMP.store(1, std::sync::atomic::Ordering::SeqCst);
+    LIB_KIND.store(false, std::sync::atomic::Ordering::SeqCst);
     let Some(w) = w else { return };
     let mut r = Run { w, items: vec![], out };
     let user = |rng: &mut Rng| -> usize { rng.range(1, 4) as usize };
@@ -788,6 +862,9 @@ fn random_trace(out: &mut Out, rng: &mut Rng, idx: usize, len: usize) {
                                          _ => *rng.pick(&[20u32, 100, 17_281, 20_000, 600_000, 4_000_000, 17_280 * 31, 6_400_000]) };
             if k >= 17_281 { r.out.label("advance/long-gap"); }
             r.go(Call::Advance(k));
+        } else if d < 90 && r.w.lib {
+            if rng.chance(1, 2) { r.go(Call::SetAsset(*rng.pick(&[255usize, 0, 1, 3]))); }
+            else { r.go(Call::SetOffset(*rng.pick(&[0u32, 1, off, MAX_OFF, MAX_OFF + 1, u32::MAX]))); }
         } else {
             // queries on arbitrary amounts
             let rel = [o.ta, o.sup, o.ta.saturating_add(1), o.sup.saturating_add(pow10(off))];
@@ -807,9 +884,14 @@ fn main() {
     out.per_shard(260);
     let mut rng = Rng::new(out.cfg.seed);
     let thorough = out.cfg.thorough;
-    scenarios(&mut out);
-    ctor_cases(&mut out, &mut rng);
-    grids(&mut out, &mut rng, thorough);
+    let set_kind = |lib: bool| LIB_KIND.store(lib, std::sync::atomic::Ordering::SeqCst);
+    for lib in [false, true] {
+        set_kind(lib);
+        scenarios(&mut out);
+        ctor_cases(&mut out, &mut rng);
+        grids(&mut out, &mut rng, thorough);
+    }
+    set_kind(false);
     long_gaps(&mut out, thorough);
     let ntr = (if thorough { 1500 } else { 110 }) * out.cfg.scale as usize;
     for i in 0..ntr {
